@@ -247,7 +247,7 @@ func c03Delete(c *Ctx) {
 		k2 := isIntConst(stripConvAll(bo.Y), 2)
 		return fld == "Type" && k2 && ((bo.Op == token.EQL && f.Kind == IsTrue) || (bo.Op == token.NEQ && f.Kind == IsFalse))
 	}}
-	ok := len(frees) == 2
+	ok := len(frees) >= 1 // one call per table, or one call on the table that was chosen (C18 R18e judges the choice)
 	var path []string
 	for _, ci := range frees {
 		if missing, w := p.unguardedFromEntry(df, ci, match, isStream); len(missing) > 0 {
@@ -371,7 +371,7 @@ func c03ReadBeforeOverwrite(c *Ctx) {
 			}
 		}
 		frees := p.callsIn(df, "lib/comdoc.freeSectors")
-		ok := len(blanks) > 0 && len(frees) == 2
+		ok := len(blanks) > 0 && len(frees) >= 1
 		for _, blank := range blanks {
 			if !ok {
 				break
@@ -428,47 +428,21 @@ func c03ReadBeforeOverwrite(c *Ctx) {
 		}
 	}
 	c.Check(okAll && n >= 2, "R03e", "data-descriptor presence is read from the local header", "-", fmt.Sprintf("%d tests of flag bit 3, all on zipLocalHeader.Flags", n), "flag bit 3 (data descriptor follows) is tested on "+where+" instead of the local file header: for a member whose two headers disagree the member's extent is misjudged by the size of the descriptor, every following offset shifts and the rewritten archive is unreadable")
-	// (3) binpatch in-place: the final length is assigned, not maximised
-	if ap := p.Func("lib/binpatch.(*PatchSet).Apply"); ap == nil {
-		c.Undecided("R03e", "PatchSet.Apply", "-", "function not found")
-	} else {
-		tr := p.callsIn(ap, "(*os.File).Truncate")
-		ok := len(tr) == 1
-		detail := ""
-		if ok {
-			size := tr[0].Common().Args[1]
-			// leaves: ininfo.Size() and Offset+NewSize; the latter must not enter under a comparison with the size itself
-			for _, lf := range phiLeaves(size, nil, map[*ssa.Phi]bool{}) {
-				bo, isAdd := lf.V.(*ssa.BinOp)
-				if !isAdd || bo.Op != token.ADD || lf.From == nil {
-					continue
-				}
-				// is the edge From->To control-dependent on an ordering test that mentions this sum?
-				for _, b := range ap.Blocks {
-					ifi, isIf := b.Instrs[len(b.Instrs)-1].(*ssa.If)
-					if !isIf {
-						continue
-					}
-					cmp, isCmp := ifi.Cond.(*ssa.BinOp)
-					if !isCmp {
-						continue
-					}
-					switch cmp.Op {
-					case token.LSS, token.LEQ, token.GTR, token.GEQ:
-					default:
-						continue
-					}
-					if (cmp.X == ssa.Value(bo) || cmp.Y == ssa.Value(bo)) && reach(ap, b.Succs[:1], nil, nil)[lf.From.Index] != reach(ap, b.Succs[1:], nil, nil)[lf.From.Index] {
-						ok = false
-						detail = p.Pos(cmp.Pos())
-					}
-					if (cmp.X == ssa.Value(bo) || cmp.Y == ssa.Value(bo)) && (b.Succs[0] == lf.From || b.Succs[1] == lf.From || b == lf.From) {
-						ok = false
-						detail = p.Pos(cmp.Pos())
-					}
-				}
+	// (3) binpatch in-place: the final length is assigned, not maximised (the analysis of C08 R08g, which
+	// follows the size through the steps of Apply that were given names)
+	{
+		fs := truncateNotMax(p)
+		ok, detail := len(fs) > 0, ""
+		for _, f := range fs {
+			if !f.OK {
+				ok = false
+				detail = f.Detail
 			}
 		}
-		c.Check(ok, "R03e", "in-place patching sets the file to exactly the prescribed length", p.Pos(ap.Pos()), "", "the final length of the in-place result is only taken over when it compares larger ("+detail+"): a trailing replacement that is shorter than what it replaces leaves the old tail in the file, while the rewrite path produces the right length")
+		pos := "-"
+		if ap := p.Func("lib/binpatch.(*PatchSet).Apply"); ap != nil {
+			pos = p.Pos(ap.Pos())
+		}
+		c.Check(ok, "R03e", "in-place patching sets the file to exactly the prescribed length", pos, "", "the final length of the in-place result is only taken over when it compares larger: a trailing replacement that is shorter than what it replaces leaves the old tail in the file, while the rewrite path produces the right length ("+short(detail, 160)+")")
 	}
 }
